@@ -731,6 +731,7 @@ impl Model {
             .map(|(_, t, s)| (t.clone(), *s))
             .collect();
         let mut required = 0usize;
+        let mut competing = 0usize;
         let mut missing: Vec<String> = Vec::new();
         for (topic, _) in self.retained.iter() {
             let probe = Msg {
@@ -753,6 +754,10 @@ impl Model {
             }
             let window = self.retained_in_window(topic, made_at, now);
             let always = window.iter().all(|v| v.is_some());
+            if window.iter().any(|v| v.is_some()) {
+                // everything that may have been in the store competes for the delivery window
+                competing += 1;
+            }
             let g = got.iter().find(|(t, _)| t == topic);
             match g {
                 Some((_, s)) => {
@@ -786,7 +791,8 @@ impl Model {
         } else {
             self.cfg.max_out as usize
         };
-        if !missing.is_empty() && !optional && required + 1 < window_free.min(90) {
+        let _ = required;
+        if !missing.is_empty() && !optional && competing + 1 < window_free.min(90) {
             fail!(
                 "retained:missing_on_new_subscription",
                 "new subscription {filter:?} (qos {qos}) did not receive the retained message of {missing:?}"
